@@ -24,13 +24,14 @@ mod c14;
 mod c15;
 mod c16;
 mod c17;
+mod c19;
 
 use ctx::{Ctx, Mode, Tier};
 
 #[global_allocator]
 static GLOBAL: alloc::Counting = alloc::Counting;
 
-const PROPS: &[&str] = &["C01", "C02", "C03", "C04", "C05", "C06", "C07", "C08", "C09", "C10", "C12", "C13", "C14", "C15", "C16", "C17"];
+const PROPS: &[&str] = &["C01", "C02", "C03", "C04", "C05", "C06", "C07", "C08", "C09", "C10", "C12", "C13", "C14", "C15", "C16", "C17", "C19"];
 
 fn run_check(ctx: &mut Ctx) {
     match ctx.prop.as_str() {
@@ -50,6 +51,7 @@ fn run_check(ctx: &mut Ctx) {
         "C15" => c15::run(ctx),
         "C16" => c16::run(ctx),
         "C17" => c17::run(ctx),
+        "C19" => c19::run(ctx),
         p => panic!("machinery: unknown property {}", p),
     }
 }
